@@ -138,11 +138,12 @@ def run_harness(ctx, driver, name, timeout=1200, **args):
         m = re.search(r'^panic: .*$', r.stdout, re.M)
         if m and 'harness: ' not in r.stdout[:m.start()]:
             # an unrecovered panic (the harness recovers panics of the calls it makes itself): it is the library's when the
-            # panicking goroutine (first block of the dump) runs library code, or runs no harness code at all (a function
-            # value the library handed to the runtime, e.g. context.AfterFunc(ctx, wg.Done))
+            # panicking goroutine (first block of the dump) runs no harness code at all: a goroutine the library started, or
+            # a function value the library handed to the runtime, e.g. context.AfterFunc(ctx, wg.Done); a panicking goroutine
+            # with harness frames is a harness bug (exit 2)
             tail = r.stdout[m.start():]
             first = tail.split('\n\n', 2)[1] if tail.count('\n\n') >= 1 else tail
-            if 'github.com/joeycumines/go-bigbuff.' in first or ('main.' not in first and 'verifharness/' not in first):
+            if 'main.' not in first and 'verifharness/' not in first:
                 raise Crash(tail[:6000])
         raise Infra(f'harness {driver} {args} failed rc={r.returncode}: {r.stdout[-2000:]} {stats.get("infra")}')
     if stats.get('infra'):
